@@ -2,7 +2,7 @@
 
 CFG = {
     "tier_a": [],
-    "model_targets": ["Encoding/Templates.vo", "Encoding/EncOk.vo"],
+    "model_targets": ["Encoding/Templates.vo", "Encoding/EncOk.vo", "Encoding/URules.vo"],
     "proof_targets": ["Props/C11.vo"],
     "harness": [{"bin": "h_modes", "prefix": "cases_modes", "timeout": 3000}],
     # the compared observation (class partition of probe terms) is what the property constrains and the
@@ -35,11 +35,22 @@ CFG = {
         "encoded session model: two terms evaluate through the view tables to the same leader iff they are in the "
         "congruence closure of the unions performed (c11_session_sound, c11_session_complete), hence the same class "
         "partition as the native model of C01 (c11_encoded_equiv_native); the invariant is reachable "
-        "(c11_invariant_reachable)"
+        "(c11_invariant_reachable); (4) USER RULES (constructor patterns in the body, insertions and unions in the head): "
+        "one (run) of the encoded program = all matches of the instrumented rules over the frozen view tables, their "
+        "add_term_and_view triples and union requests, then the maintenance schedule: for every signature, rule list and "
+        "state satisfying the session invariant, the result satisfies the invariant again, is canonical, and the unions "
+        "grew only by ground readings of head union requests under matches of the instrumented body "
+        "(c11_user_rules_step), and observed equalities are in the congruence closure of those unions "
+        "(c11_user_rules_eval_sound); the instrumented rules are tied to the encoder per run: h_modes translates the "
+        "user rules the REAL encoder emits (resolve_program) to Gallina urule values and the kernel checks them equal to "
+        "the template enc_user_rule of the source rule up to variable names (enc_user_rule_ok)"
     ),
     "link_only": (
         "termination of the saturate loops (all theorems are conditional on the run returning Ok; the model cases "
-        "run with explicit fuel); user rules, rewrites, rulesets/schedules, run :until, merge functions "
+        "run with explicit fuel); for user rules: that the encoded matches coincide with the native matches and "
+        "completeness across rule runs (kernel-evaluated per case only: class vector of the encoded model running the "
+        "EMITTED rules = native rule interpreter Egg/Rules.v = real term-encoding engine, check_rcase; the model panics "
+        "on an ill-sorted node / dead id instead of assuming typing), int literals in rules, rewrites with :subsume, rulesets/schedules, run :until, merge functions "
         "(merge rule, cleanup rules, Current table), relations, delete/subsume (to_delete/to_subsume requests, "
         "delete_rule_subsume), globals via let, push/pop, extraction costs, print-size, proof mode "
         "(Proof-valued UF/view columns, Trans/Sym/Congr terms), containers, several eq-sorts, the reprint variant, "
